@@ -95,7 +95,7 @@ LATIN1_JIS = '°±§¶×÷¢£¥¨¬´'
 CP932_ONLY = '～－∥①②③㈱髙№℡'
 
 CLASSES = ['digits', 'alnum', 'ascii', 'latin1', 'kana', 'utf8', 'cyr', 'sjis_bytes', 'lead_trail',
-           'hanzi', 'bytes', 'int', 'empty', 'latin1_jis', 'cp932_only', 'upper', 'nfd']
+           'hanzi', 'bytes', 'int', 'empty', 'latin1_jis', 'cp932_only', 'upper', 'nfd', 'unicode_digits']
 
 
 def content_of(rng, cls, n=None):
@@ -115,6 +115,9 @@ def content_of(rng, cls, n=None):
         # text whose NFC form would be Latin-1 but which, as given, is not: must not be normalised behind the user's back
         return ''.join(rng.choice(['e\u0301', 'A\u030a', 'u\u0308', '\u212b', '\u212a', 'n\u0303', 'Cafe\u0301', 'o\u0302']) if rng.random() < 0.5
                        else rng.choice('abcXYZ 12') for _ in range(max(n // 2, 1)))
+    if cls == 'unicode_digits':
+        # characters for which str.isdigit() / isdecimal() hold without being ASCII digits: text, not numbers
+        return ''.join(rng.choice('٠١٢٣٤٥٦٧٨٩०१२३４５６７８９²³¹') for _ in range(max(n, 1)))
     if cls == 'upper':
         return ''.join(rng.choice('ABCDEFGHIJKLMNOPQRSTUVWXYZ0123456789') for _ in range(max(n, 1)))
     if cls == 'cp932_only':
